@@ -153,8 +153,9 @@ def run_one(ch, env):
     tiling.tile_image(img, pio2)
 
     pio1 = PyramidIO(out1, scheme=scheme, default_format=fmt)
-    t1 = list_tiles(out1, fmt, scheme)
-    t2 = list_tiles(out2, fmt, scheme)
+    from .c02 import all_positions
+    t1 = list_tiles(out1, fmt, scheme, pio=pio1, candidates=all_positions(levels))
+    t2 = list_tiles(out2, fmt, scheme, pio=pio2, candidates=all_positions(levels))
     tref = {Pos(*k) for k in ref_tiles}
     if t2 != tref:
         res["harness_error"] = "single-image route and numpy cut disagree on the tile set: %s vs %s" % (sorted(t2 - tref), sorted(tref - t2))
